@@ -960,7 +960,7 @@ class ListBox(Widget, WidgetContainerMixin):
         self.set_focus_pending = None
 
         focus_widget, _focus_pos = self._body.get_focus()
-        if focus_widget is None:
+        if focus_widget is None or maxrow <= 0:
             return
 
         rows = focus_widget.rows((maxcol,), focus)
@@ -1291,6 +1291,9 @@ class ListBox(Widget, WidgetContainerMixin):
         from urwid.command_map import Command
 
         (maxcol, maxrow) = size
+
+        if maxrow <= 0:  # not displayed at all (e.g. a Pile too short for its fixed items): nothing to navigate
+            return key
 
         if self.set_focus_pending or self.set_focus_valign_pending:
             self._set_focus_complete((maxcol, maxrow), focus=True)
